@@ -86,11 +86,11 @@ func fuzzOne(f *testing.F, name string) {
 	f.Fuzz(func(t *testing.T, data []byte) { exec(t, bcase(name, data, "fuzz", 0, false), false) })
 }
 
-func FuzzNewBlock(f *testing.F)        { fuzzOne(f, "NewBlock") }
-func FuzzNewBlockHeader(f *testing.F)  { fuzzOne(f, "NewBlockHeader") }
-func FuzzNewTransaction(f *testing.F)  { fuzzOne(f, "NewTransaction") }
-func FuzzSingleCommits(f *testing.F)   { fuzzOne(f, "EventPostSingleCommits.DecodeStrict") }
-func FuzzSMTProof(f *testing.F)        { fuzzOne(f, "smt.Proof.Decode+Verify") }
-func FuzzRMTProof(f *testing.F)        { fuzzOne(f, "rmt.Proof.Decode+VerifyProof") }
-func FuzzGossipEnvelope(f *testing.F)  { fuzzOne(f, "gossip(transactionValidator)") }
+func FuzzNewBlock(f *testing.F)         { fuzzOne(f, "NewBlock") }
+func FuzzNewBlockHeader(f *testing.F)   { fuzzOne(f, "NewBlockHeader") }
+func FuzzNewTransaction(f *testing.F)   { fuzzOne(f, "NewTransaction") }
+func FuzzSingleCommits(f *testing.F)    { fuzzOne(f, "EventPostSingleCommits.DecodeStrict") }
+func FuzzSMTProof(f *testing.F)         { fuzzOne(f, "smt.Proof.Decode+Verify") }
+func FuzzRMTProof(f *testing.F)         { fuzzOne(f, "rmt.Proof.Decode+VerifyProof") }
+func FuzzGossipEnvelope(f *testing.F)   { fuzzOne(f, "gossip(transactionValidator)") }
 func FuzzResponseEnvelope(f *testing.F) { fuzzOne(f, "p2p.Response.Decode") }
